@@ -222,21 +222,20 @@ pub fn parse_script(s: &str) -> Option<Vec<(u8, bool)>> {
         .collect()
 }
 
-pub fn run(line: &str) -> String {
-    let f: Vec<&str> = line.split(' ').collect();
-    if f.len() != 5 {
-        return "bad-case".into();
-    }
-    let (Some(input), Some(cuts), Ok(init), Some(script)) =
-        (of_hex(f[0]), nat_list(f[1]), f[3].parse::<u8>(), parse_script(f[4]))
-    else {
-        return "bad-case".into();
-    };
-    let strict = f[2] == "1";
+pub struct RunRes {
+    pub results: Vec<&'static str>,
+    pub outs: Vec<Vec<u8>>,
+    pub log: Vec<String>,
+    pub out: Vec<u8>,
+}
+
+/// Run the real TransformStream under the scripted controller. `do_end = false` stops after the
+/// last write (used by the latency oracle).
+pub fn run_cfg(input: &[u8], cuts: &[usize], strict: bool, init: u8, script: &[(u8, bool)], do_end: bool) -> RunRes {
     let shared = Rc::new(RefCell::new(Shared::default()));
     let out = Rc::new(RefCell::new(Vec::<u8>::new()));
     let out2 = out.clone();
-    let ctl = Ctl { script, init, k: 0, shared: shared.clone() };
+    let ctl = Ctl { script: script.to_vec(), init, k: 0, shared: shared.clone() };
     let mut ts = TransformStream::new(TransformStreamSettings {
         transform_controller: ctl,
         output_sink: move |c: &[u8]| out2.borrow_mut().extend_from_slice(c),
@@ -251,10 +250,10 @@ pub fn run(line: &str) -> String {
     let mut results = vec![];
     let mut outs = vec![];
     let mut failed = false;
-    for ch in split_at_cuts(&input, &cuts) {
+    for ch in split_at_cuts(input, cuts) {
         let before = out.borrow().len();
         let r = ts.write(ch);
-        outs.push(hex_or_dash(&out.borrow()[before..]));
+        outs.push(out.borrow()[before..].to_vec());
         match r {
             Ok(()) => results.push("ok"),
             Err(e) => {
@@ -264,34 +263,238 @@ pub fn run(line: &str) -> String {
             }
         }
     }
-    if !failed {
+    if !failed && do_end {
         let before = out.borrow().len();
         let r = ts.end();
-        outs.push(hex_or_dash(&out.borrow()[before..]));
+        outs.push(out.borrow()[before..].to_vec());
         match r {
             Ok(()) => results.push("ok"),
             Err(e) => results.push(err_str(&e)),
         }
     }
+    drop(ts);
     let mut sh = shared.borrow_mut();
     if let Some((s, e, tt, bs)) = sh.text_acc.take() {
         sh.log.push(format!("X?:{}-{}:{}:{}", s, e, tt, hex_or_dash(&bs)));
     }
-    let evs = if sh.log.is_empty() { "-".to_string() } else { sh.log.join(";") };
-    let obs = format!("{} # {} # {}", results.join(";"), outs.join(";"), evs);
+    let log = std::mem::take(&mut sh.log);
+    let o = out.borrow().clone();
+    RunRes { results, outs, log, out: o }
+}
+
+fn parse_range(s: &str) -> Option<(usize, usize)> {
+    let (a, b) = s.split_once('-')?;
+    Some((a.parse().ok()?, b.parse().ok()?))
+}
+
+/// C14: reported ranges are inside the input, ordered, disjoint, and delimit the construct.
+fn oracle_c14(input: &[u8], log: &[String]) -> Option<String> {
+    let mut last_end = 0usize;
+    for ev in log {
+        let f: Vec<&str> = ev.split(':').collect();
+        let kind = f[0];
+        if !matches!(kind, "S" | "T" | "C" | "D" | "X" | "X?") {
+            continue;
+        }
+        let (s, e) = parse_range(f[1])?;
+        if s > e || e > input.len() {
+            return Some(format!("range-out-of-bounds {ev}"));
+        }
+        if s < last_end {
+            return Some(format!("range-goes-backwards {ev} (previous end {last_end})"));
+        }
+        last_end = e;
+        let raw = &input[s..e];
+        match kind {
+            "S" | "T" => {
+                if raw.first() != Some(&b'<') || raw.last() != Some(&b'>') {
+                    return Some(format!("tag-range-not-delimited {ev}"));
+                }
+                let name = of_hex(f[2])?;
+                let off = if kind == "S" { 1 } else { 2 };
+                if raw.len() < off + name.len() || raw[off..off + name.len()] != name[..] {
+                    return Some(format!("tag-name-not-at-range-start {ev}"));
+                }
+                if kind == "S" && f[5] != "-" {
+                    for a in f[5].split('+') {
+                        let (nv, loc) = a.split_once('@')?;
+                        let (n, v) = nv.split_once('=')?;
+                        let (n, v) = (of_hex(n)?, of_hex(v)?);
+                        if loc == "N/N" {
+                            return Some(format!("attr-location-missing name={} {ev}", to_hex(&n)));
+                        }
+                        let (nl, vl) = loc.split_once('/')?;
+                        let (ns, ne) = parse_range(nl)?;
+                        let (vs, ve) = parse_range(vl)?;
+                        if ne > input.len() || ns > ne || input[ns..ne] != n[..] || ns < s || ne > e {
+                            return Some(format!("attr-name-location-wrong {a} {ev}"));
+                        }
+                        if ve > input.len() || vs > ve || input[vs..ve] != v[..] || ve > e {
+                            return Some(format!("attr-value-location-wrong {a} {ev}"));
+                        }
+                        if vs < ne {
+                            return Some(format!("attr-value-location-before-name {a} {ev}"));
+                        }
+                    }
+                }
+            }
+            "C" => {
+                if !raw.starts_with(b"<") {
+                    return Some(format!("comment-range-not-delimited {ev}"));
+                }
+            }
+            "D" => {
+                if !raw.starts_with(b"<!") {
+                    return Some(format!("doctype-range-not-delimited {ev}"));
+                }
+            }
+            _ => {
+                // text: merged chunks must equal the input slice (windows-1252 round-trips)
+                let b = of_hex(f[3])?;
+                if b[..] != *raw {
+                    return Some(format!("text-range-mismatch {ev}"));
+                }
+            }
+        }
+    }
+    None
+}
+
+/// C09 (absolute bound, no handlers): what may be held back after a write.
+fn pending_allowed(p: &[u8]) -> bool {
+    if p.is_empty() {
+        return true;
+    }
+    // the start of one unfinished tag: '<' ['/'] name-prefix
+    if p[0] == b'<' {
+        let rest = if p.len() > 1 && p[1] == b'/' { &p[2..] } else { &p[1..] };
+        if !rest.is_empty()
+            && rest[0].is_ascii_alphabetic()
+            && rest.iter().all(|&b| !matches!(b, b' ' | b'\n' | b'\r' | b'\t' | b'\x0C' | b'/' | b'>'))
+        {
+            return true;
+        }
+    }
+    // a look-ahead of a few bytes ("<!DOCTYP", "<![CDATA", "<!-", "--", "]", "<!--<scrip" ...)
+    p.len() <= 8
+}
+
+pub fn run(line: &str) -> String {
+    let f: Vec<&str> = line.split(' ').collect();
+    if f.len() != 5 {
+        return "bad-case".into();
+    }
+    let (Some(input), Some(cuts), Ok(init), Some(script)) =
+        (of_hex(f[0]), nat_list(f[1]), f[3].parse::<u8>(), parse_script(f[4]))
+    else {
+        return "bad-case".into();
+    };
+    let strict = f[2] == "1";
+    let r = run_cfg(&input, &cuts, strict, init, &script, true);
+    let evs = if r.log.is_empty() { "-".to_string() } else { r.log.join(";") };
+    let outs: Vec<String> = r.outs.iter().map(|o| hex_or_dash(o)).collect();
+    let obs = format!("{} # {} # {}", r.results.join(";"), outs.join(";"), evs);
+
     // ---- direct oracles on the implementation
     let mut oracle = String::new();
+    let all_ok = r.results.iter().all(|x| *x == "ok");
     // C01: observing controller => concatenated sink bytes == input (when the run succeeded)
-    let all_ok = results.iter().all(|r| *r == "ok");
-    if all_ok && *out.borrow() != input {
+    if all_ok && r.out != input {
         oracle.push_str(&format!(
             " ||ORACLE:C01:passthrough sink != input (sink {} bytes, input {} bytes)",
-            out.borrow().len(),
+            r.out.len(),
             input.len()
         ));
     }
-    if !all_ok && results.last() == Some(&"amb") && !input.starts_with(&out.borrow()) {
+    if r.results.last() == Some(&"amb") && !input.starts_with(&r.out) {
         oracle.push_str(" ||ORACLE:C01:ambiguity-prefix sink is not a prefix of the input");
+    }
+    // C02: same events and output as the single-write run
+    if !cuts.is_empty() {
+        let r0 = run_cfg(&input, &[], strict, init, &script, true);
+        if r0.results.last() != r.results.last() {
+            oracle.push_str(&format!(
+                " ||ORACLE:C02:result-differs chunked={:?} single={:?}",
+                r.results.last(),
+                r0.results.last()
+            ));
+        } else if r0.log != r.log {
+            let i = r0.log.iter().zip(r.log.iter()).position(|(a, b)| a != b).unwrap_or(r0.log.len().min(r.log.len()));
+            oracle.push_str(&format!(
+                " ||ORACLE:C02:events-differ first difference at event {} single={:?} chunked={:?}",
+                i,
+                r0.log.get(i),
+                r.log.get(i)
+            ));
+        } else if all_ok && r0.out != r.out {
+            oracle.push_str(" ||ORACLE:C02:output-differs");
+        }
+    }
+    // C14
+    if let Some(msg) = oracle_c14(&input, &r.log) {
+        oracle.push_str(&format!(" ||ORACLE:C14:{msg}"));
+    }
+    // C09: schedule independence of bytes_out after each write + absolute bound without handlers
+    if cuts.len() <= 8 {
+        let mut written = 0usize;
+        let mut emitted = 0usize;
+        let chunks = split_at_cuts(&input, &cuts);
+        for (k, ch) in chunks.iter().enumerate() {
+            if k >= r.results.len() || r.results[k] != "ok" {
+                break;
+            }
+            written += ch.len();
+            emitted += r.outs[k].len();
+            if !cuts.is_empty() {
+                let fresh = run_cfg(&input[..written], &[], strict, init, &script, false);
+                if fresh.results.last() == Some(&"ok") && fresh.out.len() != emitted {
+                    oracle.push_str(&format!(
+                        " ||ORACLE:C09:schedule-dependent after write {k}: emitted {emitted} but a fresh rewriter given the same {written} bytes emitted {}",
+                        fresh.out.len()
+                    ));
+                    break;
+                }
+            }
+            if init == 0 && script.is_empty() {
+                let pending = &input[emitted..written];
+                if !pending_allowed(pending) {
+                    // Is it exactly the single unfinished start tag that the lexer would also hold, for a
+                    // tag whose namespace decision needs the whole tag (foreign-content special cases)?
+                    let lexed = run_cfg(&input[..written], &[], strict, 31, &[], false);
+                    let name: Vec<u8> = pending[1..]
+                        .iter()
+                        .take_while(|b| !matches!(**b, b' ' | b'\n' | b'\r' | b'\t' | b'\x0C' | b'/' | b'>'))
+                        .map(|b| b.to_ascii_lowercase())
+                        .collect();
+                    let hashable = name.len() <= 12 && name.iter().all(|b| b.is_ascii_lowercase() || (b'1'..=b'6').contains(b));
+                    let special = [&b"font"[..], b"desc", b"title", b"foreignobject", b"mi", b"mo", b"mn", b"ms", b"mtext"]
+                        .contains(&&name[..])
+                        || !hashable;
+                    let site = if lexed.out.len() == emitted && pending[0] == b'<' && special {
+                        "held-back-whole-tag-needing-attributes"
+                    } else {
+                        "held-back-too-much"
+                    };
+                    oracle.push_str(&format!(
+                        " ||ORACLE:C09:{site} no handlers, after {written} bytes {} are held back: {}",
+                        pending.len(),
+                        to_hex(&pending[..pending.len().min(24)])
+                    ));
+                    break;
+                }
+                // a full lexer that holds nothing back => the scanner must hold nothing back
+                if !pending.is_empty() {
+                    let lexed = run_cfg(&input[..written], &[], strict, 31, &[], false);
+                    if lexed.results.last() == Some(&"ok") && lexed.out.len() == written {
+                        oracle.push_str(&format!(
+                            " ||ORACLE:C09:held-back-at-token-boundary no handlers: {} bytes held back although the data ends at a token boundary",
+                            pending.len()
+                        ));
+                        break;
+                    }
+                }
+            }
+        }
     }
     format!("{obs}{oracle}")
 }
